@@ -445,7 +445,33 @@ def c05(run):
             "tree (verdict) and the token stream of the real lexer against the model's (drift)")
 
 
+C06_CONFIGS = {
+    "args": ("IdentsOne", "SmallArgs", "SepsPlain", "EndsNl", "NoGaps", 1, 2, 1, 9, 12),
+    "comments": ("IdentsOne", "SmallArgs", "SepsComments", "Ends", "Gaps", 1, 1, 0, 9, 12),
+    "two": ("IdentsS", "MixedArgs", "SepsPlain", "Ends", "Gaps", 2, 1, 0, 9, 12),
+}
+
+
+def c06(run):
+    import lexh
+    q = run.tier == "quick"
+    for name, c in C06_CONFIGS.items():
+        res = lib.run_tlc("MC_C05", gen_cfg(c, faults="Faults", maxlen=c[8] if q else c[9]), coverage=False)
+        run.add_tlc("MC_C05(%s + faults)" % name, res)
+        lexh.replay_c06(run, res.lines.get("BEH", []), run.seed, limit=1500 if q else 25000)
+    run.assumptions += ["a fault is demanded to fail only if CMake itself reports a parse error for the faulted file (cmake -P on the "
+                        "text wrapped in a never-called function) or it is a backslash before an alphanumeric other than t n r "
+                        "(invalid per cmake-language(7)); faults inside comments and bracket arguments are not judged",
+                        "exit status: an exception or SystemExit with non-zero code from cminx.main"]
+    return ("TLC builds valid files from the reference productions and injects one fault string (stray or unterminated quote, "
+            "backslash before a letter, lone backslash, unterminated #[[ / #[=[, extra parentheses, bare word) at every position; "
+            "the specification predicts whether lexer or parser notice it; each faulted file is run through the real cminx.main "
+            "as a single input and inside a directory next to a healthy file: for files the reference rejects an error, a "
+            "non-zero status and no .rst are demanded, and no page may ever be written when the lexer skipped characters")
+
+
 CHECKS = {p: agg_property for p in AGG}
+CHECKS["C06"] = c06
 CHECKS["C05"] = c05
 CHECKS["C01"] = c01
 CHECKS["C17"] = c17
